@@ -151,6 +151,34 @@ theorem parse_int_range (a : Bytes) :
     -9223372036854775808 ≤ (parseInt a).1 ∧ (parseInt a).1 ≤ 9223372036854775807 :=
   parseInt_range a
 
+/-- Go's `ParseInt(arg, 0, 0)` and bash's `strtoimax(arg, …, 0)` agree on every argument — false
+    (findings C24-invalid-number, C24-go-int-syntax, C24-bash-number-forms). -/
+def numeric_arg_statement : Prop :=
+  ∀ a : Bytes, (parseInt a).1 = (Spec.signedArg a).val ∧ (Spec.signedArg a).bad = false
+
+/-- … they do agree on plain decimal numerals (no sign, no leading zero) of any length, including
+    the clamping to the int64 range. -/
+theorem numeric_arg_partial (c0 : UInt8) (t : Bytes) (h : ∀ d ∈ c0 :: t, 48 ≤ d ∧ d ≤ 57) (h0 : c0 ≠ 48) :
+    (parseInt (c0 :: t)).1 = (Spec.signedArg (c0 :: t)).val ∧ (Spec.signedArg (c0 :: t)).bad = false :=
+  numeric_arg_decimal c0 t h h0
+
+theorem numeric_arg_fails : ¬ numeric_arg_statement := by
+  intro h
+  have := (h [49, 50, 97, 98, 99]).1
+  revert this
+  decide
+
+/-- `%d`/`%i` applied to a plain decimal numeral: exactly what bash writes, and no error status. -/
+theorem directive_sem_partial (d : MDir) (h : d.WF) (hw : d.width.length ≤ 6)
+    (hv : d.verb = 100 ∨ d.verb = 105) (c0 : UInt8) (t : Bytes)
+    (ha : ∀ x ∈ c0 :: t, 48 ≤ x ∧ x ≤ 57) (h0 : c0 ≠ 48) :
+    d.out formatNil (c0 :: t) = (Spec.runDir d.spec (c0 :: t)).out ∧
+    (Spec.runDir d.spec (c0 :: t)).bad = false ∧ (Spec.runDir d.spec (c0 :: t)).stop = false := by
+  obtain ⟨hval, hbad⟩ := numeric_arg_decimal c0 t ha h0
+  rw [dir_out_signed formatNil d h hw hv, hval]
+  have hvs : d.spec.verb = d.verb := rfl
+  rcases hv with hv | hv <;> simp [Spec.runDir, hvs, hv, hbad]
+
 /-! ## the property itself, and where it fails
 
   `PrintfLikeBash ws` / `EchoLikeBash ws`: on the words `ws` the model of the builtin writes the
